@@ -37,7 +37,26 @@ func (m *Model) isClaimValueSym(s *Sym) bool {
 	if m.isClaimLoadSym(s) {
 		return true
 	}
-	if s == nil || s.V == nil {
+	if s == nil {
+		return false
+	}
+	// `x && claim` evaluated into a local: phi[claim | false]; true implies claim
+	if s.Op == "phi" {
+		n := 0
+		for _, a := range s.Args {
+			if a.Op == "const" && a.Name == "false" {
+				continue
+			}
+			if !m.isClaimValueSym(a) {
+				return false
+			}
+			n++
+		}
+		if n > 0 {
+			return true
+		}
+	}
+	if s.V == nil {
 		return false
 	}
 	if b, ok := s.V.Type().Underlying().(*types.Basic); !ok || b.Kind() != types.Bool {
@@ -210,6 +229,80 @@ func (m *Model) gatedFilter(v ssa.Value, depth int, keep func(pred *ssa.BasicBlo
 			continue
 		}
 		break
+	}
+	// a parameter with a single call site: the argument's expression in the caller
+	if p, ok := v.(*ssa.Parameter); ok && depth <= 3 {
+		if sites := m.callers[p.Parent()]; len(sites) == 1 {
+			for i, q := range p.Parent().Params {
+				if q == p && i < len(sites[0].Instr.Common().Args) {
+					return m.gatedFilter(sites[0].Instr.Common().Args[i], depth+1, nil)
+				}
+			}
+		}
+	}
+	// a call of a small pure helper: the gated form of what it returns
+	if call, ok := v.(*ssa.Call); ok && depth <= 3 {
+		if f := call.Call.StaticCallee(); f != nil && m.Sym.inlinable(f) {
+			var rets []ssa.Value
+			for _, b := range f.Blocks {
+				if ret, ok := b.Instrs[len(b.Instrs)-1].(*ssa.Return); ok && b != f.Recover && len(ret.Results) == 1 {
+					rets = append(rets, returnValue(ret, 0))
+				}
+			}
+			if len(rets) >= 1 {
+				g := ""
+				if len(rets) == 1 {
+					g = m.gatedFilter(rets[0], depth+1, nil)
+				} else {
+					// several returns: a select over the returned values, gated by the guards of each return
+					type cs struct {
+						val  string
+						lits map[string]bool
+					}
+					var cases []cs
+					for _, b := range f.Blocks {
+						if ret, ok := b.Instrs[len(b.Instrs)-1].(*ssa.Return); ok && b != f.Recover && len(ret.Results) == 1 {
+							lits := map[string]bool{}
+							for _, l := range m.Guards(b) {
+								lits[l.String()] = true
+							}
+							cases = append(cases, cs{m.gatedFilter(returnValue(ret, 0), depth+1, nil), lits})
+						}
+					}
+					common := map[string]bool{}
+					for k := range cases[0].lits {
+						all := true
+						for _, c := range cases[1:] {
+							if !c.lits[k] {
+								all = false
+							}
+						}
+						if all {
+							common[k] = true
+						}
+					}
+					var parts []string
+					for _, c := range cases {
+						var ls []string
+						for k := range c.lits {
+							if !common[k] {
+								ls = append(ls, k)
+							}
+						}
+						sort.Strings(ls)
+						parts = append(parts, c.val+" if {"+strings.Join(ls, "; ")+"}")
+					}
+					sort.Strings(parts)
+					g = "select[" + strings.Join(uniq(parts), " | ") + "]"
+				}
+				for i, p := range f.Params {
+					if i < len(call.Call.Args) {
+						g = strings.ReplaceAll(g, "param:"+p.Name(), strings.TrimPrefix(m.Sym.Of(call.Call.Args[i]).String(), "&"))
+					}
+				}
+				return g
+			}
+		}
 	}
 	phi, ok := v.(*ssa.Phi)
 	if !ok || depth > 3 {
